@@ -233,6 +233,13 @@ func (bv *Binary) Reflect(c px.Context) reflect.Value {
 }
 
 func (bv *Binary) ReflectTo(c px.Context, value reflect.Value) {
+	if value.Kind() == reflect.Ptr && value.Type().Elem().Kind() == reflect.Slice {
+		// a pointer to a byte slice: reflect into a new slice and point to it
+		s := reflect.New(value.Type().Elem())
+		bv.ReflectTo(c, s.Elem())
+		value.Set(s)
+		return
+	}
 	switch value.Type().Elem().Kind() {
 	case reflect.Int8, reflect.Uint8:
 		value.SetBytes(bv.bytes)
